@@ -112,6 +112,7 @@ class Features:
     style_names: bool = True
     enum_first_zero_bias: bool = True
     enum_first_zero: bool = False  # first member is always 0 (keeps recorded finding D4b out of a check)
+    signed_nonstd: bool = True  # signed widths other than 8/16/32/64
     prune_unused_imports: bool = False  # drop imports no type uses (recorded finding D10: unused Go import)
 
 
@@ -196,6 +197,8 @@ class _Builder:
             bits = d(st.sampled_from(INTERESTING_WIDTHS))
         else:
             bits = d(st.integers(1, 64))
+        if kind == "int" and not self.feat.signed_nonstd:
+            bits = d(st.sampled_from([8, 16, 32, 64]))
         return TBase(kind, bits)
 
     def single_type(self, allow_msg: bool = True, allow_alias: bool = True) -> Any:
